@@ -52,6 +52,9 @@ var c13Producers = []struct {
 	{"%e", func(d *apd.Decimal) (string, error) { return fmt.Sprintf("%e", d), nil }},
 }
 
+// c13Others are encoded between producing an output and parsing it.
+var c13Others = []*apd.Decimal{apd.New(987654321, -3), apd.New(-5, 40), {Form: apd.NaN}, apd.New(0, 0)}
+
 var c13Consumers = []struct {
 	name string
 	f    func(s string) (*apd.Decimal, error)
@@ -92,6 +95,29 @@ func c13Text(x Operand) (msg string) {
 			if got := ToVal(d); !identical(got, x.V) {
 				return fmt.Sprintf("%s -> %q -> %s = %s, want the identical Decimal", p.name, clip(s), c.name, got)
 			}
+		}
+	}
+	// the output a caller holds must stay what it was: encode x, keep the bytes, encode other
+	// decimals (same and different lengths), then parse the bytes kept
+	for _, enc := range []struct {
+		name string
+		f    func(d *apd.Decimal) []byte
+	}{
+		{"MarshalText", func(d *apd.Decimal) []byte { b, _ := d.MarshalText(); return b }},
+		{"Append(nil,'G')", func(d *apd.Decimal) []byte { return d.Append(nil, 'G') }},
+	} {
+		held := enc.f(x.D)
+		snap := string(held)
+		for _, o := range c13Others {
+			enc.f(o)
+			_ = o.String()
+		}
+		if string(held) != snap {
+			return fmt.Sprintf("%s output %q changed to %q after later encoder calls on other Decimals", enc.name, clip(snap), clip(string(held)))
+		}
+		d := new(apd.Decimal)
+		if err := d.UnmarshalText(held); err != nil || !identical(ToVal(d), x.V) {
+			return fmt.Sprintf("%s output %q held across later encoder calls parses to %s (err %v)", enc.name, clip(snap), ToVal(d), err)
 		}
 	}
 	if x.V.Form == ref.Finite && abs(x.V.Exp) <= 3000 {
@@ -390,7 +416,7 @@ func init() {
 	core.Register(&core.Prop{
 		ID:    "C13",
 		Title: "Text and binary encodings round-trip every Decimal exactly",
-		Rule:  "every Decimal of the text space through every producer x every consumer (field-wise identity), Text('f') (value and sign), Compose(Decompose(d)) with four buffer shapes into seven destination pre-states, and SetFloat64->Float64 on every sign/exponent combination x structured mantissa patterns (bit identity, shortest coefficient); every case is a distinct point of the product",
+		Rule:  "every Decimal of the text space through every producer x every consumer (field-wise identity), Text('f') (value and sign), MarshalText/Append output held across four later encoder calls and parsed afterwards, Compose(Decompose(d)) with four buffer shapes into seven destination pre-states, and SetFloat64->Float64 on every sign/exponent combination x structured mantissa patterns (bit identity, shortest coefficient); every case is a distinct point of the product",
 		Bounds: func(tier string) string {
 			return fmt.Sprintf("text space: %d Decimals x 12 producers x 5 consumers; Compose: 4 buffer shapes x 7 destinations; float64: 2 x 2048 exponents x %d mantissa patterns (+ a seed-selected window of 2^18 float32 values in the thorough tier)", len(textSpace(tier)), len(mantissaPatterns()))
 		},
